@@ -120,9 +120,9 @@ class Reifier:
         if isinstance(kind, Ref):
             if z3.is_true(self.ev(val == NULL)):
                 return {"t": "none"}
-            name = self.ref_name(val)
+            name = self.obj_key(kind.cls, val)
             self.visit_object(kind.cls, val, depth + 1)
-            return {"t": "ref", "id": name, "cls": kind.cls}
+            return {"t": "ref", "id": name, "cls": self.objects[name]["cls"]}
         if isinstance(kind, Seq):
             n = self.ev(kind.len(term))
             n = n.as_long() if z3.is_int_value(n) else 0
@@ -166,9 +166,24 @@ class Reifier:
             out.append(kt)
         return out
 
+    def root_class(self, cls):
+        chain = self.class_chain(cls)
+        return chain[-1] if chain else cls
+
+    def obj_key(self, cls, ref):
+        # references are untyped in the SMT heap: objects are identified by (root class, reference)
+        return f"{self.root_class(cls)}:{self.ref_name(ref)}"
+
     def visit_object(self, cls, ref, depth):
-        name = self.ref_name(ref)
-        if name in self.objects or depth > 12:
+        name = self.obj_key(cls, ref)
+        if name in self.objects:
+            # keep the most specific class seen
+            if len(self.class_chain(cls)) > len(self.class_chain(self.objects[name]["cls"])):
+                self.objects[name]["cls"] = cls
+            return
+        if depth > 12:
+            self.objects[name] = {"cls": cls, "fields": {}, "truncated": True}
+            self.ref_terms[name] = ref
             return
         obj = {"cls": cls, "fields": {}}
         self.objects[name] = obj
@@ -183,9 +198,8 @@ class Reifier:
                 key = f"{c}.{f}"
                 arr = self.st.heap.get(key)
                 if arr is None:
-                    # field never touched on this path: any value will do -> default
-                    obj["fields"][f] = self.default_value(kind)
-                    continue
+                    # initial arrays are created lazily on first read: refer to them by their fixed name
+                    arr = z3.Const(f"H0_{key}", z3.ArraySort(RefSort, kind.sort()))
                 obj["fields"][f] = self.value(kind, z3.Select(arr, ref), depth)
 
     def default_value(self, kind):
@@ -218,11 +232,14 @@ class Reifier:
         return out
 
     def params_content(self, ref):
+        from contracts.schema import P_HAS, P_VAL
         has = self.st.heap.get("Params.p_has")
         val = self.st.heap.get("Params.p_val")
         data = {}
-        if has is None or val is None:
-            return data
+        if has is None:
+            has = z3.Const("H0_Params.p_has", z3.ArraySort(RefSort, P_HAS.sort()))
+        if val is None:
+            val = z3.Const("H0_Params.p_val", z3.ArraySort(RefSort, P_VAL.sort()))
         h, v = z3.Select(has, ref), z3.Select(val, ref)
         keys = set(self.eng.accessed_param_keys)
         for kt in getattr(self.eng, "accessed_key_terms", []):
